@@ -15,7 +15,8 @@ def payload(rnd, n, kind=None):
         out = b""
         # one character per lead-byte class of Table 3-7 (C2..DF, E0, E1..EC, ED, EE..EF, F0, F1..F3, F4) and the ends of the planes
         pool = ["a", "é", "κ", "€", "😀", "z", "\u0800", "\ud7ff", "\ue000", "\ufffd", "\U00010000", "\U00040000",
-                "\U000d0000", "\U000e0041", "\U000fffff", "\U00100000", "\U0010ffff"]
+                "\U000d0000", "\U000e0041", "\U000fffff", "\U00100000", "\U0010ffff",
+                "\ufeff"]       # U+FEFF is a character like any other, also as the FIRST one of a text (no "BOM" in RFC 6455)
         while len(out) < n:
             out += rnd.choice(pool).encode()
         # cut on a character boundary
